@@ -2,6 +2,7 @@ import Lean.Data.Json
 import MLPE.Eng
 import MLPE.Sem
 import MLPE.PlainSpec
+import MLPE.LiveSpec
 
 /-! Line-protocol front end of the engine model: lock-step replay of an implementation trace.
 
@@ -323,8 +324,15 @@ def semLine (_ : Unit) (line : String) : Unit × String :=
     let oneHyp : Bool := onePB P
     let semSolvesOne : Bool := oneHyp && solutionOneB P ev &&
       st.demanded.all (fun n => !P.g.nodes.contains n || semVal n == ev n)
+    -- hypotheses of the stuck-freedom theorem for pipelines with switches (Proofs/Live*.lean): `SwP`, no suspending
+    -- collaborator, no one-of child, the executable check `livePB` with the computed depth table
+    let noYield : Bool := [Cb.nstart, Cb.ncomplete, Cb.save, Cb.pstart, Cb.pcomplete].all fun k =>
+      (0 :: P.g.nodes).all fun n => P.cbYield k n == 0
+    let liveHyp : Bool := swHyp && noYield && P.g.nodes.all (fun n => !(P.g.attr n).isOneofChild) &&
+      livePB P (computeDepths P)
     ((), (Json.mkObj [("outcome", Json.str oc), ("causes", jsonStrs causes), ("calls", jsonStrs calls),
                       ("one_hyp", Json.bool oneHyp), ("sem_solves_one", Json.bool semSolvesOne),
+                      ("live_hyp", Json.bool liveHyp), ("sw_noyield", Json.bool (swHyp && noYield)),
                       ("demanded", toJson st.demanded), ("values", Json.mkObj vals),
                       ("plain_hyp", Json.bool plainHyp), ("sem_solves", Json.bool semSolves),
                       ("sw_hyp", Json.bool swHyp), ("sem_solves_sw", Json.bool semSolvesSw)]).compress)
